@@ -64,6 +64,14 @@ def amp_check(case):
         k, name = what[bad[0]]
         v.append(("amp:%s" % name, "nc=%d proportion=%r: %d channels %s 98%% of range -> flagged=%s, expected %s (k/nc=%s)"
                   % (nc, p, k, name, sat[bad[0]], exp[bad[0]], Fraction(k, nc))))
+    # the same call again with the same range object: same flags, range untouched
+    if vmode == 1:
+        Vkeep = V.copy()
+        sat2, _ = voltage.saturation(data.copy(), max_voltage=V, v_per_sec=NOSLEW, fs=FS, proportion=p, mute_window_samples=1)
+        sat3, _ = voltage.saturation(data.copy(), max_voltage=V, v_per_sec=NOSLEW, fs=FS, proportion=p, mute_window_samples=1)
+        if not (np.array_equal(np.asarray(sat2).astype(bool), exp) and np.array_equal(np.asarray(sat3).astype(bool), exp)) or not np.array_equal(V, Vkeep):
+            v.append(("amp:repeated-call", "nc=%d: calling saturation again with the same per-channel range array gives other flags (range array modified: %s)"
+                      % (nc, not np.array_equal(V, Vkeep))))
     return Res(v, o=(pi, vmode, bool(exp.any())), tr=1)
 
 
@@ -86,9 +94,19 @@ def slew_check(case):
     for k in range(nc + 1):
         for name, step in (("below", lim * (1 - 1e-6)), ("above", lim * (1 + 1e-6))):
             chans = rng.permutation(nc)[:k]
+            sgn = np.where(rng.random(k) < 0.5, -1, 1)
+            if k % 2:
+                # steps that cross zero: from -step/2 to +step/2 (reached slowly beforehand)
+                pre = np.zeros(nc)
+                pre[chans] = -0.5 * step * sgn
+                for f in (0.25, 0.5, 0.75):
+                    cols.append(pre * f)
+                    expect.append(False)
+                    what.append((k, "approach"))
+                cur = pre
             cols.append(cur.copy())
             nxt = cur.copy()
-            nxt[chans] += step * np.where(rng.random(k) < 0.5, -1, 1)
+            nxt[chans] += step * sgn
             expect.append(Fraction(k if name == "above" else 0, nc) > _frac(p))
             what.append((k, name))
             cur = nxt
